@@ -198,10 +198,16 @@ impl CertificateSigningRequestParams {
 		// * name_constraints
 		// and any other extensions.
 
-		Ok(Self {
-			params,
-			public_key: PublicKey { alg, raw },
-		})
+		// A certificate issued for this request gets its SubjectPublicKeyInfo written from
+		// (algorithm, key bits). Refuse a request whose own SubjectPublicKeyInfo is encoded in
+		// any other way (unused bits, non-minimal lengths): it would not be copied byte for byte.
+		let public_key = PublicKey { alg, raw };
+		let spki = yasna::construct_der(|writer| serialize_public_key_der(&public_key, writer));
+		if spki != info.subject_pki.raw {
+			return Err(Error::CouldNotParseCertificationRequest);
+		}
+
+		Ok(Self { params, public_key })
 	}
 
 	/// Generate a new certificate based on the requested parameters, signed by the provided
